@@ -850,6 +850,7 @@ func TestRandom(t *testing.T) {
 func TestReplay(t *testing.T) {
 	outerT = t
 	t.Run("TestRandom", func(t *testing.T) { vstat.Replay(t, prop, "TestRandom", run) })
+	t.Run("TestOneToOne", func(t *testing.T) { vstat.Replay(t, prop, "TestOneToOne", runO2O) })
 }
 
 // TestRegRecordsAfterRoot: minimised failure found by TestRandom on the pinned tree —
